@@ -143,8 +143,3 @@ Definition wf_chart (m : chart) : bool :=
   && forallb (fun n => negb (is_hit n)) (slot_notes SHolds m)
   && forallb (fun l => match tl_class l with CNone => match tl_notes l with [] => true | _ => false end | _ => true end) m.
 Definition wfb (m : chart) (gap thr : Z) : bool := wf_chart m && (0 <=? gap) && (0 <=? thr).
-
-(* guard that excludes the defect class of the pinned tree (see Props/C17.v, *_refuted) *)
-(* no other list of the chart is a non-empty HitList/HoldList instance (StepMania mines, rolls, ...) *)
-Definition no_extra (m : chart) : bool :=
-  forallb (fun l => match tl_class l, tl_notes l with CNone, _ => true | _, [] => true | _, _ => false end) (others m).
